@@ -14,7 +14,6 @@ import (
 	"encoding/binary"
 	"encoding/json"
 	"fmt"
-	"io"
 	"math/rand"
 	"os"
 	"os/exec"
@@ -150,6 +149,32 @@ func (di dirInfo) segAt(off int64) *seg {
 	return best
 }
 
+// coveredUntil: first offset >= off that no segment file of the image holds.
+func (di dirInfo) coveredUntil(off int64) int64 {
+	pos := off
+	for {
+		s := di.segAt(pos)
+		if s == nil {
+			return pos
+		}
+		pos = s.Right()
+	}
+}
+
+// rdbAvail: bytes of the snapshot (off,size) present in the image (final or temporary file).
+func (di dirInfo) rdbAvail(off, size int64) int64 {
+	best := int64(0)
+	for _, r := range di.rdbs {
+		if r.Off == off && r.Size == size {
+			if !r.Tmp {
+				return r.Raw
+			}
+			best = r.Raw
+		}
+	}
+	return best
+}
+
 // firstHole walks [l, r) over the segment extents present in the image; -1 if covered.
 func (di dirInfo) firstHole(l, r int64) int64 {
 	pos := l
@@ -205,6 +230,8 @@ type checker struct {
 	tmpSeq  atomic.Int64
 	sigMu   sync.Mutex
 	sigHist map[string]int
+	// set when StoreChannel.NewReader was proven to self-deadlock with checksum verification on
+	crcDeadlock atomic.Bool
 }
 
 // modeGate serialises the two settings of the process-global Channel.VerifyCrc that
@@ -334,17 +361,75 @@ type readResult struct {
 	BadWant   byte
 	Extra     int64 // bytes available beyond the reported right edge (verified too)
 	Stalled   bool
+	OpenHung  bool // NewReader itself never returned
+	Limited   bool // fewer bytes requested than promised because the image does not hold them
 }
 
-const readWatchdog = 30 * time.Second
+const readWatchdog = 20 * time.Second
+const openWatchdog = 5 * time.Second
+
+// stackHas reports whether one goroutine's stack contains all the given frames.
+func stackHas(frames ...string) bool {
+	buf := make([]byte, 8<<20)
+	buf = buf[:runtime.Stack(buf, true)]
+	for _, g := range strings.Split(string(buf), "\n\n") {
+		all := true
+		for _, f := range frames {
+			if !strings.Contains(g, f) {
+				all = false
+				break
+			}
+		}
+		if all {
+			return true
+		}
+	}
+	return false
+}
+
+// willBeLogReader: GetReader serves an offset from a segment when one holds it (left <= off <= right).
+func willBeLogReader(di dirInfo, off int64) bool {
+	for _, s := range di.segs {
+		if s.Len > 0 && s.Left <= off && off <= s.Right() {
+			return true
+		}
+	}
+	return false
+}
 
 // readStream opens a reader at off and consumes exactly the bytes the report promises
 // (aof: up to the reported right edge; snapshot: its size), never waiting for more.
-func (c *checker) readStream(img *image, ch *syncer.StoreChannel, runId string, off int64, right int64, crc bool) readResult {
+func (c *checker) readStream(img *image, di dirInfo, ch *syncer.StoreChannel, runId string, off int64, right int64, crc bool) readResult {
 	res := readResult{BadAt: -1}
+	type opened struct {
+		rd  syncer.ChannelReader
+		err error
+	}
+	oc := make(chan opened, 1)
 	c.gate.enter(crc)
-	rd, err := ch.NewReader(syncer.Offset{RunId: runId, Offset: off})
+	go func() {
+		rd, err := ch.NewReader(syncer.Offset{RunId: runId, Offset: off})
+		oc <- opened{rd, err}
+	}()
+	var rd syncer.ChannelReader
+	var err error
+	select {
+	case o := <-oc:
+		rd, err = o.rd, o.err
+	case <-time.After(openWatchdog):
+		res.OpenHung = true
+	}
 	c.gate.leave()
+	if res.OpenHung {
+		// not a timing matter if the opener is parked on a lock its own frame holds
+		if stackHas("store.(*Storer).GetReader", "isCorrupted", "sync.(*RWMutex).RLock") {
+			c.crcDeadlock.Store(true)
+			c.r.Count("newreader_self_deadlocks", 1)
+		} else {
+			c.r.Inconclusive("NewReader at %d (%s) did not return within %v", off, crcName(crc), openWatchdog)
+		}
+		return res
+	}
 	c.r.Count("readers_opened", 1)
 	if err != nil {
 		res.Refused, res.Err = true, err.Error()
@@ -356,12 +441,22 @@ func (c *checker) readStream(img *image, ch *syncer.StoreChannel, runId string, 
 	res.IsAof, res.Left, res.Size = rd.IsAof(), rd.Left(), rd.Size()
 	var expect func(p []byte, at int64) int // first mismatch in p (stream position at) or -1
 	if res.IsAof {
+		// never ask for bytes no file of the image holds: a follow-mode reader would wait for
+		// them for ever (the hole itself is judged structurally by the caller)
+		if cu := di.coveredUntil(res.Left); cu < right {
+			right = cu
+			res.Limited = true
+		}
 		res.Want = right - res.Left
 		key := prf.AofKey(img.Params.Seed, prf.GenOf(res.Left))
 		base := res.Left
 		expect = func(p []byte, at int64) int { return prf.Mismatch(p, key, base+at) }
 	} else {
 		res.Want = res.Size
+		if av := di.rdbAvail(res.Left, res.Size); av < res.Want {
+			res.Want = av
+			res.Limited = true
+		}
 		g := prf.GenOf(res.Left)
 		var snap []byte
 		if g >= 0 && g < len(img.Params.Gens) {
@@ -390,7 +485,7 @@ func (c *checker) readStream(img *image, ch *syncer.StoreChannel, runId string, 
 			if res.Want-res.Got < n {
 				n = res.Want - res.Got
 			}
-			m, err := io.ReadFull(br, buf[:n])
+			m, err := br.Read(buf[:n])
 			if m > 0 {
 				if i := expect(buf[:m], res.Got); i >= 0 && res.BadAt < 0 {
 					res.BadAt = res.Got + int64(i)
@@ -425,6 +520,11 @@ func (c *checker) readStream(img *image, ch *syncer.StoreChannel, runId string, 
 	case <-done:
 	case <-time.After(readWatchdog):
 		res.Stalled = true
+		if os.Getenv("VERIF_C08_DEBUG") != "" {
+			fmt.Fprintf(os.Stderr, "STALL %s/img%d crc=%v off=%d right=%d got=%d want=%d isaof=%v\n", img.Case, img.Idx, crc, off, right, res.Got, res.Want, res.IsAof)
+			b, _ := json.Marshal(map[string]any{"witness": map[string]any{"image": img}})
+			_ = os.WriteFile(fmt.Sprintf("/tmp/c08b-out/stall-%s-%d.json", img.Case, img.Idx), b, 0o644)
+		}
 	}
 	wait.Close(nil)
 	rd.Close()
@@ -508,14 +608,32 @@ func (c *checker) checkOpen(img *image, runId string, di dirInfo, crc bool, rng 
 	}
 	// (2) one contiguous range: every reported offset is held by a segment file of the image
 	holeAt := di.firstHole(rep.L, rep.R)
+	ds := di.dataSegs()
 	if holeAt >= 0 {
 		sig := "hole|between-segments"
 		what := fmt.Sprintf("reported range [%d,%d] contains offset %d that no segment file of the image holds", rep.L, rep.R, holeAt)
+		if len(ds) == 0 || holeAt >= ds[len(ds)-1].Right() {
+			sig = "range|beyond-last-segment"
+			what = fmt.Sprintf("reported range [%d,%d] extends beyond offset %d where the newest segment file of the image ends", rep.L, rep.R, holeAt)
+		}
 		if rep.RdbL != -1 && holeAt == rep.RdbL {
 			sig = "hole|snapshot-then-later-segment"
 			what = fmt.Sprintf("snapshot at %d is offered and range [%d,%d] reported, but the first segment present starts after %d: the log right after the snapshot is missing (data older than a gap is served)", rep.RdbL, rep.L, rep.R, holeAt)
 		}
 		c.r.Violation(sig, key, what, w(map[string]any{"hole_at": holeAt}))
+	}
+	// (2b) segments older than a gap are discarded: the report starts no earlier than the
+	// newest contiguous run of segments
+	if len(ds) > 1 {
+		runL := ds[len(ds)-1].Left
+		for i := len(ds) - 1; i > 0 && ds[i].Left == ds[i-1].Right(); i-- {
+			runL = ds[i-1].Left
+		}
+		if runL != ds[0].Left && rep.L < runL {
+			c.r.Violation("stale|older-than-gap-reported", key,
+				fmt.Sprintf("the image's newest contiguous run of segments starts at %d (older segments are separated from it by a gap) but the reported range [%d,%d] starts before it", runL, rep.L, rep.R),
+				w(map[string]any{"newest_run_starts": runL}))
+		}
 	}
 	// (3) a snapshot is offered only if all its bytes are there
 	if rep.RdbL != -1 {
@@ -578,7 +696,14 @@ func (c *checker) checkOpen(img *image, runId string, di dirInfo, crc bool, rng 
 		probes = append(probes, probe{rep.R - 1, "right-edge"})
 	}
 	for _, pb := range probes {
-		res := c.readStream(img, ch, runId, pb.off, rep.R, crc)
+		if crc && c.crcDeadlock.Load() && willBeLogReader(di, pb.off) {
+			c.r.Count("crc_on_log_probes_skipped_after_deadlock", 1)
+			continue
+		}
+		res := c.readStream(img, di, ch, runId, pb.off, rep.R, crc)
+		if res.OpenHung {
+			return // the opener holds the storer's lock for ever: this instance is unusable
+		}
 		c.r.Seen("reader_kinds", pb.kind+"|"+crcName(crc))
 		if res.Refused {
 			continue
@@ -607,9 +732,9 @@ func (c *checker) checkOpen(img *image, runId string, di dirInfo, crc bool, rng 
 			if holeAt >= 0 {
 				c.r.Count("stalls_explained_by_reported_hole", 1)
 			} else {
-				c.r.Inconclusive("%s %s: reader at %d stalled after %d of %d bytes with no hole in the image (watchdog %v)", key, crcName(crc), pb.off, res.Got, res.Want, readWatchdog)
+				c.r.Inconclusive("%s %s: reader at %d stalled after %d of %d bytes the image holds (watchdog %v)", key, crcName(crc), pb.off, res.Got, res.Want, readWatchdog)
 			}
-			continue
+			return
 		}
 		if res.Got < res.Want && !crc {
 			// without checksum verification nothing in a hole-free image is refusable; not a
@@ -621,7 +746,13 @@ func (c *checker) checkOpen(img *image, runId string, di dirInfo, crc bool, rng 
 	// (5) data older than a gap is not served
 	for _, s := range di.dataSegs() {
 		if s.Right() <= rep.L || s.Left > rep.R {
-			res := c.readStream(img, ch, runId, s.Left, s.Right(), crc)
+			if crc && c.crcDeadlock.Load() {
+				break
+			}
+			res := c.readStream(img, di, ch, runId, s.Left, s.Right(), crc)
+			if res.OpenHung {
+				return
+			}
 			c.r.Count("stale_probes", 1)
 			if !res.Refused && res.IsAof && res.Got > 0 {
 				c.r.Violation("stale-served|segment-outside-reported-range|"+crcName(crc), key,
@@ -675,9 +806,13 @@ func (c *checker) alter(img *image, runId string, di dirInfo, rng *rand.Rand, n 
 			case 2:
 				a.Kind, a.Delta = "truncate", -(1 + rng.Int63n(rdb.Size-9)) // keeps > 8 bytes
 			default:
+				// bytes after the S bytes the name promises are never served; the file's first S
+				// bytes still carry their own valid trailer, so either outcome is acceptable as
+				// long as what is served is the snapshot (CRC64 residue: zero padding even passes
+				// the whole-file check)
 				a.Kind, a.Delta = "extend", 1+rng.Int63n(64)
 			}
-			a.Content = true
+			a.Content = a.Kind != "extend"
 		} else {
 			if len(closed) < 2 {
 				continue
@@ -730,6 +865,7 @@ func (c *checker) alter(img *image, runId string, di dirInfo, rng *rand.Rand, n 
 				}
 			}
 		}
+		adi := analyse(files)
 		ch, rep, dir, err := c.openImage(runId, files, img.Params.LogSize)
 		c.r.Eval(1)
 		c.r.Count("alterations", 1)
@@ -752,8 +888,17 @@ func (c *checker) alter(img *image, runId string, di dirInfo, rng *rand.Rand, n 
 					outcome = "not-offered"
 					return
 				}
-				res := c.readStream(img, ch, runId, rep.RdbL-rep.RdbS, rep.R, true)
-				if !res.Refused && !res.IsAof && res.Got > 0 {
+				res := c.readStream(img, adi, ch, runId, rep.RdbL-rep.RdbS, rep.R, true)
+				if res.OpenHung {
+					outcome = "unobservable-newreader-deadlock"
+					return
+				}
+				if !res.Refused && !res.IsAof && res.BadAt >= 0 {
+					outcome = "served"
+					c.r.Violation("wrong-byte|snapshot|altered-image|"+a.Kind, key, "snapshot reader served a byte the source never sent", w(map[string]any{"read": res}))
+				} else if !res.Refused && !res.IsAof && res.Got > 0 && !a.Content {
+					outcome = "served-unchanged-content"
+				} else if !res.Refused && !res.IsAof && res.Got > 0 {
 					outcome = "served"
 					c.r.Violation("crc|altered-snapshot-served|"+a.Kind, key,
 						fmt.Sprintf("checksum verification on: the completed snapshot was altered (%s) yet its reader delivered %d bytes instead of refusing", a.Kind, res.Got),
@@ -783,7 +928,15 @@ func (c *checker) alter(img *image, runId string, di dirInfo, rng *rand.Rand, n 
 				if rep.L != -1 && off >= rep.L && off <= rep.R {
 					right = rep.R
 				}
-				res := c.readStream(img, ch, runId, off, right, true)
+				if c.crcDeadlock.Load() && willBeLogReader(adi, off) {
+					outcome = "unobservable-newreader-deadlock"
+					continue
+				}
+				res := c.readStream(img, adi, ch, runId, off, right, true)
+				if res.OpenHung {
+					outcome = "unobservable-newreader-deadlock"
+					return
+				}
 				if res.Refused || !res.IsAof {
 					continue
 				}
@@ -926,6 +1079,7 @@ func (c *checker) checkImage(img *image, nAlter int) {
 		}
 		if st.InDel != 0 {
 			c.r.Seen("windows", "mid-directory-removal")
+			c.r.Count("images_mid_directory_removal", 1)
 		}
 		sig += fmt.Sprintf("|rdb=%s|segs=%s|tail=%s|gap=%s|midseg-unfinal=%v|ingc=%d|indel=%d", rdbState, bucket(len(ds)), tail, gap, unfinalMiddle, st.InGc, st.InDel)
 		for _, crc := range []bool{false, true} {
@@ -970,6 +1124,9 @@ func genParams(rng *rand.Rand) prf.Params {
 			s = 12*1024 + rng.Int63n(36*1024)
 		}
 		nseg := 6 + rng.Int63n(50)
+		if rng.Intn(10) < 3 {
+			nseg = 1 + rng.Int63n(4) // short-lived generation: snapshot + a handful of segments
+		}
 		if p.ChunkMax == 8 && nseg > 14 {
 			nseg = 14
 		}
@@ -1056,6 +1213,20 @@ func copyDirs(base string) map[string][]imgFile {
 	return out
 }
 
+// countEntries: files in all run-id directories under base.
+func countEntries(base string) int {
+	n := 0
+	ents, _ := os.ReadDir(base)
+	for _, e := range ents {
+		if f, err := os.Open(filepath.Join(base, e.Name())); err == nil {
+			names, _ := f.Readdirnames(-1)
+			n += len(names)
+			f.Close()
+		}
+	}
+	return n
+}
+
 type proc struct {
 	cmd    *exec.Cmd
 	done   chan struct{}
@@ -1134,15 +1305,25 @@ func runCase(r *harness.Run, ci int, root, childBin string, perCase int) []*imag
 			// aim
 			aim := "bytes"
 			seq0 := shm.Load(prf.SlotPhaseSeq)
+			del0 := shm.Load(prf.SlotDelSeq)
 			target := shm.Load(prf.SlotHandedTotal) + rng.Int63n(2*avgGap+1)
-			if rng.Intn(100) < 35 {
-				aim = "trigger"
+			switch x := rng.Intn(100); {
+			case session == 0 && len(images) == 0:
+				target = rng.Int63n(p.Gens[0].S + 1) // inside the first snapshot
+			case x < 25:
+				aim = "trigger" // next phase change / collector pass
+				shm.Store(prf.SlotArmed, 1)
+			case x < 50:
+				aim = "removal" // next directory removal (DelRunId)
 				shm.Store(prf.SlotArmed, 1)
 			}
 			t0 := time.Now()
 			timedOut := false
 			for !ch.exited() {
 				if aim == "trigger" && shm.Load(prf.SlotPhaseSeq) != seq0 {
+					break
+				}
+				if aim == "removal" && shm.Load(prf.SlotDelSeq) != del0 {
 					break
 				}
 				if aim == "bytes" && shm.Load(prf.SlotHandedTotal) >= target {
@@ -1160,7 +1341,19 @@ func runCase(r *harness.Run, ci int, root, childBin string, perCase int) []*imag
 				<-ch.done
 				return images
 			}
-			if !ch.exited() {
+			if !ch.exited() && aim == "removal" {
+				// stop after a PRNG number of the directory's entries have been unlinked
+				n0 := countEntries(p.Dir)
+				if n0 > 0 {
+					k := 1 + rng.Intn(n0)
+					if rng.Intn(2) == 0 { // the first unlinks decide which end of the log goes first
+						k = 1 + rng.Intn(3)
+					}
+					for !ch.exited() && shm.Load(prf.SlotInDel) != 0 && countEntries(p.Dir) > n0-k && time.Since(t0) < sampleWatchdog {
+						runtime.Gosched()
+					}
+				}
+			} else if !ch.exited() {
 				// PRNG delay, log-uniform 0..~1 ms
 				if d := time.Duration(rng.Int63n(1<<uint(rng.Intn(11)))) * time.Microsecond; d > 0 {
 					t := time.Now()
@@ -1172,6 +1365,8 @@ func runCase(r *harness.Run, ci int, root, childBin string, perCase int) []*imag
 						}
 					}
 				}
+			}
+			if !ch.exited() {
 				_ = syscall.Kill(pid, syscall.SIGSTOP)
 				t1 := time.Now()
 				for {
@@ -1262,12 +1457,12 @@ func main() {
 		sort.Slice(l, func(i, j int) bool { return l[i].V > l[j].V || (l[i].V == l[j].V && l[i].K < l[j].K) })
 		top := []string{}
 		for i, e := range l {
-			if i >= 25 {
+			if i >= 400 {
 				break
 			}
 			top = append(top, fmt.Sprintf("%d x %s", e.V, e.K))
 		}
-		r.Set("signature_histogram_top", top)
+		r.Set("signature_histogram", top)
 		for _, ph := range requiredPhases {
 			if r.Counter("phase_"+ph) == 0 {
 				r.Count("phase_"+ph, 0)
@@ -1292,7 +1487,7 @@ func main() {
 			r.Inconclusive("witness %s has no embedded image (%v); freeze instants are timing-sampled and cannot be re-sampled exactly", wp, err)
 			finish()
 		}
-		c.checkImage(wf.Witness.Image, 0)
+		c.checkImage(wf.Witness.Image, r.N(3, 2))
 		finish()
 	}
 
@@ -1357,6 +1552,10 @@ func main() {
 		}
 		if r.Counter("images") < int64(wantImages) {
 			r.Inconclusive("only %d images (< %d) after %d cases", r.Counter("images"), wantImages, cases)
+		}
+		if c.crcDeadlock.Load() {
+			r.Inconclusive("with checksum verification on StoreChannel.NewReader never returns for an offset held by a log segment: Storer.GetReader holds dataSetMux (write) and NewAofRotateReader->isCorrupted->hasWriter->getDataSet read-locks it again (self-deadlock, proven from the goroutine stack, %d occurrences); log readers and segment alterations under crc-on are therefore unobservable on this tree (skipped: %d probes). See proposed_fixes/C08-getreader-crc-deadlock.diff",
+				r.Counter("newreader_self_deadlocks"), r.Counter("crc_on_log_probes_skipped_after_deadlock"))
 		}
 		if r.Counter("bytes_verified") == 0 {
 			r.Inconclusive("no byte was read back")
